@@ -11,6 +11,9 @@ AG = "quimb/tensor/tnag/core.py"
 T1 = "quimb/tensor/tn1d/core.py"
 GV = "TensorNetworkGenVector."
 MP = "MatrixProductState."
+T2 = "quimb/tensor/tn2d/core.py"
+P2 = "TensorNetwork2DVector."
+T3 = "quimb/tensor/tn3d/core.py"
 
 _TAIL_EXACT = "            normalized=normalized,\n            rehearse=rehearse,\n            **contract_opts,\n        )\n\n    def get_cluster("
 _TAIL_CL = "                optimize=optimize,\n                normalized=normalized,\n                rehearse=rehearse,\n                **contract_opts,\n            )\n\n        return k.local_expectation_exact("
@@ -226,6 +229,89 @@ MUTANTS = [
      "                return_all=return_all,\n                **contract_opts,\n            )\n        else:\n            raise ValueError(\n                f\"Unrecognized method",
      "                return_all=True,\n                **contract_opts,\n            )\n        else:\n            raise ValueError(\n                f\"Unrecognized method",
      "expect-fail"),
+    # ---------------------------------------------------------------- 2D compute_local_expectation (plaquette environments)
+    (T2, P2 + "compute_local_expectation::plaquette-covers",
+     "ket_local.gate(G, where, contract=False) | bra_and_env", "ket_local.gate(G, tuple(sorted(where)), contract=False) | bra_and_env",
+     "expect-fail"),
+    (T2, P2 + "compute_local_expectation::plaquette-covers",
+     "                p = plaquette_map[tuple(sorted(where))]\n", "                where = tuple(sorted(where))\n                p = plaquette_map[where]\n",
+     "expect-fail"),
+    (T2, P2 + "compute_local_expectation::plaquette-covers",
+     "sites = tuple(map(ket.site_tag, plaquette_to_sites(p)))", "sites = tuple(map(ket.site_tag, plaquette_to_sites(p)[:1]))", "expect-fail"),
+    (T2, P2 + "compute_local_expectation::plaquette-covers",
+     "bra_and_env = bra.select_any(sites) | plaquette_envs[p]", "bra_and_env = bra.select_any(sites) | plaquette_envs[min(plaquette_envs)]",
+     "expect-fail"),
+    (T2, P2 + "compute_local_expectation::plaquette-covers",
+     "norm, ket, bra = self.make_norm(return_all=True)\n\n        if plaquette_envs is None:",
+     "norm, bra, ket = self.make_norm(return_all=True)\n\n        if plaquette_envs is None:", "expect-fail"),
+    (T2, P2 + "compute_local_expectation::numerator-denominator",
+     "                norm_i0j0 = (ket_local | bra_and_env).contract(",
+     "                norm_i0j0 = (ket_local | (bra.select_any(sites) | plaquette_envs[min(plaquette_envs)])).contract(", "expect-fail"),
+    (T2, P2 + "compute_local_expectation::numerator-denominator",
+     "            if normalized:\n                norm_i0j0 = (", "            if not normalized:\n                norm_i0j0 = (", "expect-fail"),
+    (T2, P2 + "compute_local_expectation::numerator-denominator",
+     "                norm_i0j0 = (ket_local | bra_and_env).contract(", "                norm_i0j0 = (bra_and_env | ket_local).contract(",
+     "benign"),   # a | b = b | a
+    (T2, P2 + "compute_local_expectation::summed-forms",
+     "return functools.reduce(add, (e / n for e, n in expecs.values()))", "return functools.reduce(add, (e for e, n in expecs.values()))",
+     "expect-fail"),
+    (T2, P2 + "compute_local_expectation::summed-forms",
+     "return functools.reduce(add, (e / n for e, n in expecs.values()))",
+     "return functools.reduce(add, (e / list(expecs.values())[0][1] for e, n in expecs.values()))", "expect-fail"),
+    (T2, P2 + "compute_local_expectation::summed-forms",
+     "return functools.reduce(add, (e for e, _ in expecs.values()))", "return functools.reduce(add, (e for e, _ in list(expecs.values())[:1]))",
+     "expect-fail"),
+    (T2, P2 + "compute_local_expectation::environment-options",
+     '            plaquette_env_options["cutoff"] = cutoff\n            plaquette_env_options["canonize"] = canonize\n            plaquette_env_options["mode"] = mode\n            plaquette_env_options["layer_tags"] = layer_tags\n\n            plaquette_envs = dict()',
+     '            plaquette_env_options["cutoff"] = 0.0\n            plaquette_env_options["canonize"] = canonize\n            plaquette_env_options["mode"] = mode\n            plaquette_env_options["layer_tags"] = layer_tags\n\n            plaquette_envs = dict()',
+     "expect-fail"),
+    (T2, P2 + "compute_local_expectation::environment-options",
+     '            plaquette_env_options["max_bond"] = max_bond\n            plaquette_env_options["cutoff"] = cutoff\n            plaquette_env_options["canonize"] = canonize\n            plaquette_env_options["mode"] = mode\n            plaquette_env_options["layer_tags"] = layer_tags\n\n            plaquette_envs = dict()',
+     '            plaquette_env_options["cutoff"] = cutoff\n            plaquette_env_options["canonize"] = canonize\n            plaquette_env_options["mode"] = mode\n            plaquette_env_options["layer_tags"] = layer_tags\n\n            plaquette_envs = dict()',
+     "expect-fail"),
+    (T2, P2 + "compute_local_expectation::summed-forms",
+     "        expecs = dict()\n        for p in plaq2coo:", "        expecs = {}\n        for p in plaq2coo:", "benign"),
+    # ---------------------------------------------------------------- 3D PEPS3D.compute_local_expectation
+    (T3, "PEPS3D.compute_local_expectation::trace-G-rho", 'do("tensordot", G, rho, ((0, 1), (1, 0)))',
+     'do("tensordot", G, rho, ((0, 1), (0, 1)))', "expect-fail"),
+    (T3, "PEPS3D.compute_local_expectation::trace-G-rho", 'do("tensordot", G, rho, ((0, 1), (1, 0)))',
+     'do("tensordot", G, rho, ((1, 0), (0, 1)))', "benign"),
+    (T3, "PEPS3D.compute_local_expectation::trace-G-rho",
+     'expecs[where] = do("tensordot", G, rho, ((0, 1), (1, 0)))\n\n        if return_all:',
+     'expecs[where] = do("tensordot", G, rho, ((0, 1), (1, 0)))\n\n        if not return_all:', "expect-fail"),
+    (T3, "PEPS3D.compute_local_expectation::options-reach",
+     "                normalized=normalized,\n                envs=envs,\n                storage_factory=storage_factory,\n                **contract_boundary_opts,\n            )\n            expecs[where]",
+     "                normalized=True,\n                envs=envs,\n                storage_factory=storage_factory,\n                **contract_boundary_opts,\n            )\n            expecs[where]",
+     "expect-fail"),
+    (T3, "PEPS3D.compute_local_expectation::options-reach",
+     "                normalized=normalized,\n                envs=envs,\n                storage_factory=storage_factory,\n                **contract_boundary_opts,\n            )\n            expecs[where]",
+     "                normalized=normalized,\n                envs={},\n                storage_factory=storage_factory,\n                **contract_boundary_opts,\n            )\n            expecs[where]",
+     "expect-fail"),
+    (T3, "PEPS3D.compute_local_expectation::options-reach",
+     "                flatten=flatten,\n                symmetrized=symmetrized,\n                normalized=normalized,\n                envs=envs,\n                storage_factory=storage_factory,\n                **contract_boundary_opts,\n            )\n            expecs[where]",
+     "                flatten=flatten,\n                normalized=normalized,\n                envs=envs,\n                storage_factory=storage_factory,\n                **contract_boundary_opts,\n            )\n            expecs[where]",
+     "expect-fail"),
+    # ---------------------------------------------------------------- MPS.compute_local_expectation_via_envs
+    (T1, MP + "compute_local_expectation_via_envs::operator-on-ket", "k.gate_(G, where, contract=False)", "b.gate_(G, where, contract=False)", "expect-fail"),
+    (T1, MP + "compute_local_expectation_via_envs::operator-on-ket", "k.gate_(G, where, contract=False)", "k.gate_(G, tuple(sorted(where)) if not isinstance(where, Integral) else where, contract=False)",
+     "expect-fail"),
+    (T1, MP + "compute_local_expectation_via_envs::operator-on-ket", "tags = [ket.site_tag(i) for i in range(sitemin, sitemax + 1)]",
+     "tags = [ket.site_tag(i) for i in range(sitemin, sitemax)]", "expect-fail"),
+    (T1, MP + "compute_local_expectation_via_envs::operator-on-ket", "k = ket.select_any(tags, virtual=False)", "k = ket.select_any(tags, virtual=True)", "expect-fail"),
+    (T1, MP + "compute_local_expectation_via_envs::environments-complete", "                tn_local_overlap |= right_envs[sitemax]", "                tn_local_overlap |= right_envs[sitemin]",
+     "expect-fail"),
+    (T1, MP + "compute_local_expectation_via_envs::environments-complete", "            if sitemin in left_envs:\n                tn_local_overlap |= left_envs[sitemin]\n", "",
+     "expect-fail"),
+    (T1, MP + "compute_local_expectation_via_envs::environments-complete", "            if sitemin in left_envs:\n                tn_local_overlap |= left_envs[sitemin]\n",
+     "            if sitemin in left_envs:\n                tn_local_overlap |= left_envs[sitemin]\n                tn_local_overlap |= left_envs[sitemin]\n",
+     "expect-fail"),
+    (T1, MP + "compute_local_expectation_via_envs::normalised-once", "                x = x / nfactor\n", "                x = x / nfactor / nfactor\n", "expect-fail"),
+    (T1, MP + "compute_local_expectation_via_envs::normalised-once", "                tn_norm = tn_norm | right_envs[0]", "                tn_norm = tn_norm | right_envs[1]", "expect-fail"),
+    (T1, MP + "compute_local_expectation_via_envs::normalised-once",
+     "            expecs[where] = x\n\n        if return_all:\n            return expecs\n\n        return functools.reduce(operator.add, expecs.values())",
+     "            expecs[where] = x\n\n        if return_all:\n            return expecs\n\n        return functools.reduce(operator.mul, expecs.values())",
+     "expect-fail"),
+    (T1, MP + "compute_local_expectation_via_envs::operator-on-ket", "            tn_local_overlap = k | b\n", "            tn_local_overlap = b | k\n", "benign"),
 ]
 
 
@@ -243,7 +329,7 @@ def run_mutant(tmp, relpath, suffix, old, new):
     X.ROOT = root
     X._TREES.clear()
     try:
-        res = {o.id: (o.status, o.model) for o in X.provider()}
+        res = {o.id: (o.status, o.model) for o in X.provider() + X.provider_2d() + X.provider_3d() + X.provider_1d_envs()}
     finally:
         X.ROOT = None
         X._TREES.clear()
